@@ -419,6 +419,7 @@ def run(ctx):
     scope_peels_const_and_typedef_together(ctx)
     comparisons_pair_this_with_other(ctx)
     function_scopes_hang_under_the_declarators_scope(ctx)
+    nullable_members_are_ordered_when_only_one_is_null(ctx)
     rebuild_rules(ctx, "R06.5")
     changed_flag_rules(ctx, "R06.6")
     ctx.rule("R06.1", "every field a (non-copy) constructor initialises from a parameter is read by the class's structural is_less() and is_equal()")
@@ -893,3 +894,48 @@ def function_scopes_hang_under_the_declarators_scope(ctx):
         ctx.ob("R06.15", "yyparse|function-scope#%d|parent-is-the-declarators-scope" % n, ok, "src/cppparser/cppBison.yxx (generated line %s)" % f.loc(site).split(":")[-1],
                "parent = %s" % (show(a0)[:80] if a0 is not None else "?"))
     ctx.floor("R06.15", "function scopes made by the grammar", n, 5)
+
+
+def nullable_members_are_ordered_when_only_one_is_null(ctx):
+    """R06.16: CPPType::new_type() interns types in a std::set ordered by is_less(); two types are ONE type if neither is
+    less than the other.  Where a member pointer may be null (an array without a bound, a function type without an owner
+    class) is_equal() says "different" when exactly one side is null - so is_less() must order that case too, with a
+    return that compares the two pointers (or their nullness), not only the pointees when both exist.  Otherwise `T[]`
+    and `T[4]` fall through to the element type, tie, and whichever was parsed first replaces the other.
+    (Seed S9-C06: CPPArrayType::is_less lost its `(_bounds == nullptr) != (ot->_bounds == nullptr)` branch.)"""
+    from . import gates as G
+    db = ctx.db
+    ctx.rule("R06.16", "in every is_less() of the parser's declaration classes, a member that the function tests against nullptr is also ordered at pointer level: some return compares the member of this with the member of the other object (or their nullness) without dereferencing")
+    n = 0
+    for f in db.functions:
+        if not f.name.endswith("::is_less") or "/cppparser/" not in f.file:
+            continue
+        nullable = {}
+        for y in f.walk():
+            ca = G.cmp_atom(y) if y.get("k") == "bin" and y.get("op") in ("==", "!=") else None
+            if not ca:
+                continue
+            for u, v in ((ca[1], ca[2]), (ca[2], ca[1])):
+                if u is not None and v is not None and (strip_casts(peel(v)) or {}).get("k") == "nullp":
+                    fl = field_of(strip_casts(peel(u)))
+                    if fl:
+                        nullable.setdefault(fl, y)
+        for fl, where in sorted(nullable.items()):
+            n += 1
+            ok = False
+            for r in f.walk():
+                if r.get("k") != "ret" or r.get("e") is None:
+                    continue
+                for b in walk(r["e"]):
+                    if b.get("k") != "bin" or b.get("op") not in ("<", ">", "!=", "=="):
+                        continue
+                    x, y = strip_casts(peel(b["x"])), strip_casts(peel(b["y"]))
+                    if x is not None and y is not None and x.get("k") == "mem" and y.get("k") == "mem" and x.get("n") == fl and y.get("n") == fl:
+                        ok = True       # pointer-level comparison of the two members
+                    for p_, q_ in ((x, y), (y, x)):
+                        if p_ is not None and q_ is not None and p_.get("k") == "mem" and p_.get("n") == fl and q_.get("k") == "nullp":
+                            ok = True   # `return ot->_m != nullptr;` style
+            ctx.ob("R06.16", "%s|%s|ordered-when-one-side-is-null" % (f.name, fl.split("::")[-1]), ok, f.loc(where),
+                   "a return orders the two objects by the pointers themselves" if ok else
+                   "%s is tested against nullptr but no return orders an object that has it against one that has not" % fl.split("::")[-1])
+    ctx.floor("R06.16", "nullable members in is_less functions", n, 3)
